@@ -147,8 +147,9 @@ theorem sockCan_ok : checkCan world table prog sockCan = true := (checkAll_split
 * `UnicodeEncodeError`: a `str` name that is not latin-1 (`bind`, `connect`, `resolve` encode it with `'latin'`),
 * `NotImplementedError`: `setsockopt(SO_SNDBUF)`,
 * `RuntimeError`: internal consistency checks of `DataLinkConnection.accept` / `connect` / `recv`,
-* `AssertionError`: the `assert socket.addr == self.addr` of `ServiceAccessPoint.remove_socket` (`close`; reached in
-  the C09 finding `exc-racing-terminate-close-AssertionError`),
+* `AssertionError`: the `assert` of `ServiceAccessPoint.remove_socket` (`close`; it was reached in the C09 finding
+  `exc-racing-terminate-close-AssertionError`, repaired in /repo by weakening the asserted condition - the `assert`
+  statement itself is still there),
 * `IndexError`: `resolve` when all 256 transaction identifiers are in use (`random.choice([])`). -/
 theorem socket_api_escapes : ∀ fa ∈ sockApiOnly, Only fa.1 fa.2 :=
   fun fa h => only_all sockOnly_ok fa (List.mem_append_left _ h)
